@@ -124,6 +124,13 @@ CHECKS["C07"] = dict(
    note="Not asserted: API misuse that is not input-driven. Known findings: infinite-recursion error is a bare Errorf (text pinned by a repository test); huge exponents are expanded into memory (OOM).",
    design="4/C07")
 
+CHECKS["C12"] = dict(
+   category="model_checking", engine="C controlled scheduler (sync shim injected by go-build overlay) + race detector as per-execution monitor",
+   technique="stateless model checking of the real library: exhaustive DFS over thread schedules with a preemption bound at every sync.Once/Mutex/RWMutex/Pool operation, plus exhaustive pool-answer deviations; sequential-result oracle and happens-before race monitor on every execution",
+   text="58 closed scenarios (first use of an uncompiled shared schema by 2 threads for every pair of 7 operations and by 3 threads, 2 threads x 2 operations, 3 threads on a compiled schema, two roots sharing an added type, shared validation next to a private compile+Example, enum/regex first use) are executed under a cooperative scheduler injected into the library by a build overlay; ALL interleavings with <= 2 preemptions (light 2-thread scenarios; 1 for scenarios containing a whole compilation or 3 threads; thorough +1) and ALL pool-answer deviations <= 2 are explored; in every execution every call must return its sequential result, every Once body must run once, no deadlock/livelock may occur and the race detector (which sees no happens-before edge from the scheduler's norace hand-off) must stay silent.",
+   note="Trusted: the shim scheduler (replay of a schedule is checked for divergence), the Go race detector. 2-3 goroutines, bounded preemptions. Known finding: roots sharing an added type that uses allOf corrupt it when compiled concurrently.",
+   design="4/C12")
+
 NOT_YET = {
 }
 
